@@ -29,6 +29,11 @@ class Verdict:
         self.prop = prop
         self.tier = tier
         self.timer = Timer()
+        rdir = os.path.join(ROOT, "replays", prop)
+        if os.path.isdir(rdir):  # replay files are rewritten by every run
+            for f in os.listdir(rdir):
+                if f.endswith(".json"):
+                    os.remove(os.path.join(rdir, f))
         self.known = [k for k in load_known() if k.get("property") == prop and k.get("status") == "known"]
         self.seen_known = {}
         self.violations = {}
